@@ -640,6 +640,22 @@ static const MPT_STRUCT(type_traits) *builtin_scalar(const char *api, const char
 	return t;
 }
 /*
+ * element width of a transport value format byte, read from the documented
+ * layout (message.h, enum Value): bit 0x80 byte order, bits 0x60 class
+ * (0x20 unsigned, 0x40 float, 0x60 signed integer, none: big number),
+ * "size = (val & 0x1f) + 1" for the three normal classes,
+ * "size = ((val & 0x1f) + 1) * BigAtom" (BigAtom = 0x40) for big numbers.
+ * Written with literals on purpose: independent of mpt_msgvalfmt_size().
+ */
+_Static_assert(MPT_MESGVAL(Unsigned) == 0x20 && MPT_MESGVAL(Float) == 0x40 && MPT_MESGVAL(Integer) == 0x60
+               && MPT_MESGVAL(Normal) == 0x60 && MPT_MESGVAL(BigAtom) == 0x40 && MPT_MESGVAL(ByteOrderLittle) == 0x80,
+               "format byte layout differs from the one documented in message.h");
+static size_t documented_width(int fmt)
+{
+	size_t field = (size_t) (fmt & 0x1f) + 1;
+	return (fmt & 0x60) ? field : field * 0x40;
+}
+/*
  * message value format codes (all 256) and byte sizes 0..17: every id derived
  * from them is refused or is a built-in scalar type of exactly that size
  */
@@ -655,13 +671,19 @@ static void check_derived_ids(void)
 		int id, cls;
 		vf_at("mpt_msgvalfmt_size");
 		size = mpt_msgvalfmt_size((uint8_t) fmt);
+		vf_count("mpt_msgvalfmt_size", 1);
+		VF_CHECK(size == documented_width(fmt), "model:msgvalfmt_size:width",
+		         "mpt_msgvalfmt_size(0x%02x) = %zu, the format byte (class bits 0x%02x, width field %d) stands for %zu bytes",
+		         fmt, size, fmt & 0x60, fmt & 0x1f, documented_width(fmt));
+		vf_count("monitor:msgvalfmt-width-compared", 1);
 		vf_at("mpt_msgvalfmt_typeid");
 		id = mpt_msgvalfmt_typeid((uint8_t) fmt);
 		vf_count("mpt_msgvalfmt_typeid", 1);
 		if (vf_logging) vf_log("msgvalfmt_typeid(0x%02x) -> %d, element size %zu", fmt, id, size);
 		if (id < 0) { vf_count("refused:msgvalfmt", 1); continue; }
 		t = builtin_scalar("mpt_msgvalfmt_typeid", "model:msgvalfmt_typeid:id-not-builtin-scalar", fmt, id);
-		VF_CHECK(t->size == size, "model:msgvalfmt_typeid:size", "mpt_msgvalfmt_typeid(0x%02x) = '%c' of size %zu, format element has %zu bytes", fmt, id, t->size, size);
+		VF_CHECK(t->size == documented_width(fmt) && t->size == size, "model:msgvalfmt_typeid:size",
+		         "mpt_msgvalfmt_typeid(0x%02x) = '%c' of size %zu, format element has %zu bytes (mpt_msgvalfmt_size: %zu)", fmt, id, t->size, documented_width(fmt), size);
 		cls = scalar_class(id);
 		switch (fmt & MPT_MESGVAL(Normal)) {
 		case MPT_MESGVAL(Integer):  VF_CHECK(cls == 1, "model:msgvalfmt_typeid:kind", "signed integer format 0x%02x maps to '%c'", fmt, id); break;
@@ -679,7 +701,7 @@ static void check_derived_ids(void)
 		vf_count("mpt_msgvalfmt_code", 1);
 		if (code < 0) { vf_count("observe:no-format-code-for-scalar", 1); continue; }
 		VF_CHECK(code <= 0xff, "model:msgvalfmt_code:outside-byte", "mpt_msgvalfmt_code('%c') = 0x%x", ids[i], code);
-		VF_CHECK(mpt_msgvalfmt_size((uint8_t) code) == tab[(int) ids[i]].size, "model:msgvalfmt_code:size",
+		VF_CHECK(documented_width(code) == tab[(int) ids[i]].size && mpt_msgvalfmt_size((uint8_t) code) == tab[(int) ids[i]].size, "model:msgvalfmt_code:size",
 		         "mpt_msgvalfmt_code('%c') = 0x%02x with element size %zu, type has %zu", ids[i], code, mpt_msgvalfmt_size((uint8_t) code), tab[(int) ids[i]].size);
 		vf_at("mpt_msgvalfmt_typeid");
 		back = mpt_msgvalfmt_typeid((uint8_t) code);
